@@ -125,8 +125,12 @@ func gen(t *rapid.T) Case {
 			}
 			row[k] = [2]vkit.F{vkit.F(x), vkit.F(y)}
 		}
+		// inputs on which a transformer is likely to fail (pole, latitude out of range, absurd or NaN coordinates): the
+		// calls after a failed one are where stale state shows
+		row = append(row, [2]vkit.F{0, 90}, [2]vkit.F{vkit.F(lon), 120}, [2]vkit.F{1e30, -1e30}, [2]vkit.F{vkit.F(math.NaN()), 0})
 		c.Inputs = append(c.Inputs, row)
 	}
+	npts += 4
 	ns := rapid.IntRange(2, 30).Draw(t, "nsteps")
 	ntr := 0
 	for i := 0; i < ns; i++ {
@@ -380,7 +384,7 @@ func TestProp(t *testing.T) {
 	vkit.Main(t, vkit.Spec[Case]{
 		ID: "C10",
 		Rule: "rapid, stateful: a pool of 2-4 spatial references (C08 definition generator with +axis values other than enu, named/explicit datums needing the WGS84 step, registered names such " +
-			"as EPSG:3857) whose usable regions share a position; a history of 2-30 steps: build a transformer between two pool members (sharing the parsed SR objects), call transformer i on point k " +
+			"as EPSG:3857) whose usable regions share a position; a history of 2-30 steps: build a transformer between two pool members (sharing the parsed SR objects), call transformer i on point k (valid points of the shared region, and four inputs on which transformers tend to fail: the pole, latitude 120, 1e30 and NaN) " +
 			"(repeatedly, interleaved with other transformers), re-parse a definition. After every call the result (values to 1e-9 relative - rounding only -, NaN with NaN, and error-ness) must equal what a transformer freshly " +
 			"built from freshly parsed definitions returns on its first call; no panic. Geometry part: all eight types (nested collections, empty members) with a pure integer affine fake transformer that " +
 			"fails on the k-th vertex call or on a poisoned vertex, or a nil transformer: result has the same type and nesting (a *Bounds becomes its 4-corner polygon) with vertex i = t(vertex i), the " +
